@@ -39,11 +39,7 @@ Fixpoint run (ip:list positive) (h:heap) (w:world) (c:Comp value) {struct c} : o
       | Done h' w' (inl v) d => updd (run ip h' w' (k v)) d
       | Done h' w' (inr e) d => if unmodelled e then Done h' w' (inr e) d else updd (cont (run ip h' w' (hd e)) 0%nat k) d
       | o => o end
-  | World WRead k =>
-      match w_in w with
-      | [] => run ip h w (k VNil)
-      | l :: r => run ip h {| w_in := r; w_out := w_out w |} (k (VStr l)) end
-  | World (WPrint s) k => run ip h {| w_in := w_in w; w_out := w_out w ++ s ++ [10%N] |} (k VNil)
+  | World op k => let (w', r) := wstep w op in match r with inl v => run ip h w' (k v) | inr e => Done h w' (inr e) 0%nat end
   end.
 End Run.
 
@@ -72,7 +68,11 @@ Fixpoint bs (n:nat) (ip:list positive) (h:heap) (w:world) (tk:task) : out :=
 (* main.main on one expression, specification side *)
 Definition spec_main (fuel:nat) (prog:ast) (stdin:list (list N)) : out :=
   let (h, t) := alloc heap0 prog {| funs := []; args := [] |} in
-  bs fuel [] h {| w_in := stdin; w_out := [] |} (TComp (call (PFormat (VThunk t) false))).
+  bs fuel [] h (world_start stdin []) (TComp (call (PFormat (VThunk t) false))).
+
+Definition spec_main_fs (fuel:nat) (prog:ast) (stdin:list (list N)) (disk:list (list N * list N)) : out :=
+  let (h, t) := alloc heap0 prog {| funs := []; args := [] |} in
+  bs fuel [] h (world_start stdin disk) (TComp (call (PFormat (VThunk t) false))).
 
 (* executable cross-check used by the harness: both semantics on the same program *)
 Definition agree (fuel:nat) (prog:ast) (stdin:list (list N)) : option bool :=
